@@ -123,21 +123,55 @@ static const uint64_t vf_gost_C[12][8] = {
 #define VF_GOST_PI(x)	vf_gost_pi[x]
 #define VF_GOST_AROW(t)	vf_gost_A[t]
 #endif
+/* P o S, two spellings: gather (new byte i <- pi(old byte tau(i))) into bytes then words ... */
 static inline void
-vf_gost_lps_def(uint64_t out[8], const uint64_t in[8]) {
+vf_gost_ps_gather(uint64_t w[8], const uint64_t in[8]) {
 	uint8_t s[64], p[64];
-	unsigned i, j, t;
+	unsigned i, j;
 	for (i = 0; i < 64; i++)
 		s[i] = VF_GOST_PI((uint8_t)(in[i >> 3] >> (8 * (i & 7))));
 	for (i = 0; i < 64; i++)
 		p[i] = s[8 * (i & 7) + (i >> 3)];		/* tau(i) = 8 * (i mod 8) + i div 8 */
 	for (i = 0; i < 8; i++) {
-		uint64_t w = 0, c = 0;
-		for (j = 0; j < 8; j++) w |= (uint64_t)p[8 * i + j] << (8 * j);
-		for (t = 0; t < 64; t++)
-			if ((w >> (63 - t)) & 1) c ^= VF_GOST_AROW(t);
-		out[i] = c;
+		w[i] = 0;
+		for (j = 0; j < 8; j++) w[i] |= (uint64_t)p[8 * i + j] << (8 * j);
 	}
+}
+/* ... and scatter (pi(old byte i) -> new byte tau(i)) through a byte view of the word array
+ * (little-endian hosts); tau is an involution, so this is the same permutation */
+static inline void
+vf_gost_ps_scatter(uint64_t w[8], const uint64_t in[8]) {
+	for (unsigned i = 0; i < 64; i++)
+		((uint8_t *)w)[8 * (i & 7) + (i >> 3)] = VF_GOST_PI(((const uint8_t *)in)[i]);
+}
+/* 5.4 / 6.4: l(b63 .. b0) = b63*A[0] xor b62*A[1] xor ... xor b0*A[63]: walk the bits of the word
+ * from the most significant one downwards */
+static inline uint64_t
+vf_gost_l(uint64_t w) {
+	uint64_t c = 0, val = w;
+	for (unsigned t = 0; t < 64; t++) {
+		if (val & 0x8000000000000000ull) c ^= VF_GOST_AROW(t);	/* b(63-t) */
+		val = (val << 1);
+	}
+	return c;
+}
+/* LPS by definition (RFC 6986 6.2-6.4) */
+static inline void
+vf_gost_lps_def(uint64_t out[8], const uint64_t in[8]) {
+	uint64_t w[8];
+	vf_gost_ps_gather(w, in);
+	for (unsigned i = 0; i < 8; i++) out[i] = vf_gost_l(w[i]);
+}
+/* The same function with the scatter spelling of P o S.  Used under CBMC for the small-table
+ * build only, because the SMT back end needs the same term shapes on both sides.  Job
+ * gost.lemma.lps_forms proves vf_gost_ps_scatter == vf_gost_ps_gather for all arguments,
+ * hence vf_gost_lps_scatter == vf_gost_lps_def; the native
+ * self test compares them on random inputs as well. */
+static inline void
+vf_gost_lps_scatter(uint64_t out[8], const uint64_t in[8]) {
+	uint64_t w[8];
+	vf_gost_ps_scatter(w, in);
+	for (unsigned i = 0; i < 8; i++) out[i] = vf_gost_l(w[i]);
 }
 
 /* The contribution of one input byte to LPS: L is linear over GF(2) and S, P act on bytes, so
@@ -352,6 +386,7 @@ vf_gost_selftest(void) {
 		for (int t = 0; t < 2000; t++) {
 			for (int i = 0; i < 8; i++) { seed ^= seed << 13; seed ^= seed >> 7; seed ^= seed << 17; x[i] = seed; }
 			vf_gost_lps_def(a, x); vf_gost_lps_tab(b, x);
+			if (memcmp(a, b, 64) == 0) vf_gost_lps_scatter(b, x);
 			if (memcmp(a, b, 64)) { printf("FAIL LPS table form differs from definition\n"); bad++; break; }
 		}
 	}
